@@ -14,7 +14,8 @@ fixes+=f"\n{len(fx)} repairs. Each was first reported by the named harness, repl
 why={"C08":"repairing the writer means changing the version byte that existing tests assert; verifying Fletcher-32 in the reader with the writer's algorithm would reject reference-library files (their Fletcher-32 differs)",
      "C13":"needs the chunk index to be rebuilt (or chunks released) on shrink — a redesign of Resize",
      "C15":"the block's capacity accounting (prefix and checksum inside the block) is asserted byte-for-byte by existing tests; a repair changes every offset",
-     "C20":"the FP8 encoder needs to be rewritten around integer rounding (ties-to-even, carry into the exponent, a different overflow threshold); not a local patch",
+     "C20":"the encoders return 0x7F for NaN and the decoders read 0x7F as +Inf; the existing tests assert exactly that code (TestFP8E4M3_SpecialConversions / E5M2), so the repair would break the unedited suite",
+     "C14":"records hold only (hash, heap id); telling colliding names apart needs a lookup of the stored name in the heap on every hash match — an interface change between index and heap",
      "C18":"the lazy state is shared between the loop goroutine and foreground calls without any lock; a repair is a locking design for WritableBTreeV2"}
 opn="| id | property | harness / label | what fails, and why it is recorded rather than repaired |\n|---|---|---|---|\n"
 for f in op:
